@@ -241,6 +241,16 @@ func ruleHNSWLayerSearch(r *Run, rule string, ord bool) {
 						}
 					}
 				}
+				// the clamp written with the builtin: ef = max(ef, 1)
+				if call, ok := v.(*ssa.Call); ok {
+					if bi, isB := call.Call.Value.(*ssa.Builtin); isB && (bi.Name() == "max" || bi.Name() == "min") {
+						for _, e := range call.Call.Args {
+							if isIntParam(e) {
+								return true
+							}
+						}
+					}
+				}
 			}
 			return false
 		}
@@ -394,13 +404,13 @@ func ruleHNSWNeighbourTable(r *Run, rule string) {
 	worst := resultHeap + "[c(0)].distance"
 	var visitAdd *ssa.Call
 	allInstrs(fn, func(in ssa.Instruction) {
-		if call, ok := in.(*ssa.Call); ok && calleeName(call.Common()) == roaringBitmap+"Add" && loop.Blocks[call.Block()] && strings.Contains(c.S(call.Call.Args[0]), "roaring.New(") {
-			visitAdd = call
+		if call, ok := in.(*ssa.Call); ok && (calleeName(call.Common()) == roaringBitmap+"Add" || calleeName(call.Common()) == roaringBitmap+"CheckedAdd") && loop.Blocks[call.Block()] && strings.Contains(c.S(call.Call.Args[0]), "roaring.New(") {
+			visitAdd = call // CheckedAdd marks and tells whether the id was new in one call
 		}
 	})
 	efParam := pruneBoundParam(fn) // the int parameter that does not index an edge table (the other one is the layer)
 	isEf := func(s string) bool {
-		return s == efParam || strings.HasPrefix(s, "phi@") // ef, possibly clamped
+		return s == efParam || strings.HasPrefix(s, "phi@") || strings.HasPrefix(s, "builtin:max("+efParam+",") || strings.HasPrefix(s, "builtin:max(c(1),"+efParam) // ef, possibly clamped
 	}
 	classify := func(cond ssa.Value) (string, bool) {
 		switch x := cond.(type) {
@@ -412,6 +422,10 @@ func ruleHNSWNeighbourTable(r *Run, rule string) {
 				if strings.Contains(c.S(x.Call.Args[0]), "roaring.New(") {
 					return "VISITED", false
 				}
+			}
+			// CheckedAdd(id) is true exactly when id had not been visited (and marks it)
+			if calleeName(x.Common()) == roaringBitmap+"CheckedAdd" && strings.Contains(c.S(x.Call.Args[0]), "roaring.New(") {
+				return "VISITED", true
 			}
 		case *ssa.BinOp:
 			cmp, neg, ok := normCmp(c, x)
@@ -473,7 +487,8 @@ func ruleHNSWNeighbourTable(r *Run, rule string) {
 		"an iteration of the neighbour loop leaves the loop at "+early+": the remaining neighbours of the vertex are never looked at")
 	outcome := func(row pathRow) string {
 		var parts []string
-		if visitAdd != nil && row.P.Has(visitAdd) {
+		if visitAdd != nil && row.P.Has(visitAdd) && !(calleeName(visitAdd.Common()) == roaringBitmap+"CheckedAdd" && row.Atoms["VISITED"]) {
+			// (CheckedAdd on an id that was visited already changes nothing)
 			parts = append(parts, "mark")
 		}
 		if row.P.Has(pushE) {
